@@ -23,7 +23,7 @@ func init() {
 	register(&Check{
 		ID:    "C05",
 		Level: "model_checking",
-		Rule: "BFS (depth 4 quick / 6 thorough, sharded by first action) over deposits by two depositors with finite balances (amounts 1, limit=2^64+1, limit+1, balance, balance+1; both variants), user sends incl. a 132-byte body imitating a burn message, " +
+		Rule: "BFS (depth 4 quick / 7 thorough, sharded by first action) over deposits by two depositors with finite balances (amounts 1, limit=2^64+1, limit+1, balance, balance+1; both variants), user sends incl. a 132-byte body imitating a burn message, " +
 			"replacements (by the right and the wrong submitter) of the first user message / imitation / deposit emitted, pause/unpause; module account pre-funded with a stray balance; " +
 			"in every state: supply destroyed == sum of burn-message amounts over distinct module-sent nonces, module balance unchanged; per step: only the depositor is debited, by the amount; sender rule for every MessageSent; " +
 			"distinct_nontrivial = distinct (outstanding burn set, transaction, outcome) triples",
@@ -43,7 +43,7 @@ const c05Shards = 16
 func c05Jobs(tier string) []Job {
 	depth := 4
 	if tier == "thorough" {
-		depth = 6
+		depth = 7
 	}
 	var jobs []Job
 	for sh := 0; sh < c05Shards; sh++ {
